@@ -215,3 +215,73 @@ def split_vote(h, mk=None, over=None):
     s.do(("EBecomeLeader", 2, 1), expect=None)
     s.check(s.w.g["state"][1] == "leader" and s.w.g["state"][2] != "leader")
     return s.case("split_vote", "two candidates of one term: a candidate refuses the other's request (it voted for itself)")
+
+
+def commit_regress(h, mk=None, over=None):
+    """leader change where the new leader knows of fewer committed entries than a follower: S1 commits index 1 and its heartbeat
+    (leaderCommit 1) reaches S2 only; S1 crashes; S3 (holds the entry, commitIndex 0) is elected by S2 and its first AppendEntries
+    (leaderCommit 0) is accepted by S2: commitIndex[2] must stay 1 (Max({commitIndex, m.mcommitIndex}); theorem commit_monotone)"""
+    p = {"n": 3, "nc": 1, "buf": 10, "fifo": True, "explorefail": True, "crashers": [1], "keys": 1, "vals": 2}
+    s = (mk or Script)(h, dict(p, **(over or {})))
+    s.elect(1, [2, 3])
+    s.client_request(19, ("put", 1, 1), 1)
+    s.deliver(1, lambda m: m["mtype"] == "cpq")
+    s.append_entries(1, [2, 3])
+    s.drain(2, lambda m: m["mtype"] == "apq")
+    s.drain(3, lambda m: m["mtype"] == "apq")
+    s.drain(1, lambda m: m["mtype"] == "app")
+    s.do(("EAdvance", 1)); s.do(("EApply", 1)); s.do(("EApply", 1))
+    s.check(s.w.g["commitIndex"][1] == 1, s.w.g["commitIndex"])
+    s.append_entries(1, [2])                                            # heartbeat with leaderCommit 1 reaches S2 only
+    s.drain(2, lambda m: m["mtype"] == "apq")
+    s.check(s.w.g["commitIndex"][2] == 1 and s.w.g["commitIndex"][3] == 0, s.w.g["commitIndex"])
+    s.do(("ECrash", 1)); s.do(("EFdUpdate", 1))
+    s.timeout(3, drop=[1])
+    s.deliver(2, lambda m: m["mtype"] == "rvq" and m["msource"] == 3)
+    s.drain(3, lambda m: m["mtype"] == "rvp")
+    s.do(("EBecomeLeader", 3, 0))
+    s.check(s.w.g["state"][3] == "leader" and s.w.g["commitIndex"][3] == 0)
+    s.append_entries(3, [2])                                            # prev = 1, entries = <<>>, leaderCommit = 0
+    s.drain(2, lambda m: m["mtype"] == "apq" and m["msource"] == 3)
+    s.check(s.w.g["commitIndex"][2] == 1, s.w.g["commitIndex"])
+    s.drain(3, lambda m: m["mtype"] == "app")
+    s.do(("EAdvance", 3)); s.do(("EApply", 3))                          # entry of term 2: not committed by the leader of term 3 yet
+    return s.case("commit_regress", "a new leader advertising a lower leaderCommit than the follower's commitIndex: the follower's commitIndex does not move back")
+
+
+def even_split(h, mk=None, over=None):
+    """4 servers split in two halves, both halves hold an election in the same term: 2 of 4 votes are NOT a quorum
+    (IsQuorum(S) == Cardinality(S) * 2 > NumServers), so neither candidate may become leader; the halves then heal and S1 is elected by 3."""
+    p = {"n": 4, "nc": 1, "buf": 10, "fifo": True, "explorefail": True, "crashers": [], "keys": 1, "vals": 2}
+    s = (mk or Script)(h, dict(p, **(over or {})))
+    s.timeout(1, drop=[3, 4])
+    s.timeout(3, drop=[1, 2])
+    s.deliver(2, lambda m: m["mtype"] == "rvq" and m["msource"] == 1)
+    s.deliver(4, lambda m: m["mtype"] == "rvq" and m["msource"] == 3)
+    s.drain(1, lambda m: m["mtype"] == "rvp")
+    s.drain(3, lambda m: m["mtype"] == "rvp")
+    s.do(("EBecomeLeader", 1, 0), expect=None)                          # aborts: votesGranted = {1,2}
+    s.do(("EBecomeLeader", 3, 0), expect=None)
+    s.do(("EBecomeLeader", 1, 1), expect=None)
+    s.check(s.w.g["state"][1] == "candidate" and s.w.g["state"][3] == "candidate", s.w.g["state"])
+    # an entry on exactly half of the servers is not committed either: S1 elected by {1,2,4} in term 3, replicates to S2 only
+    s.timeout(1, drop=[3])
+    s.deliver(2, lambda m: m["mtype"] == "rvq" and m["msource"] == 1 and m["mterm"] == 3)
+    s.deliver(4, lambda m: m["mtype"] == "rvq" and m["msource"] == 1 and m["mterm"] == 3)
+    s.drain(1, lambda m: m["mtype"] == "rvp")
+    s.do(("EBecomeLeader", 1, 0))
+    s.check(s.w.g["state"][1] == "leader")
+    s.client_request(25, ("put", 1, 1), 1)
+    s.deliver(1, lambda m: m["mtype"] == "cpq")
+    s.append_entries(1, [2])
+    s.drain(2, lambda m: m["mtype"] == "apq" and m["msource"] == 1)
+    s.drain(1, lambda m: m["mtype"] == "app")
+    s.do(("EAdvance", 1)); s.do(("EApply", 1))
+    s.check(s.w.g["commitIndex"][1] == 0, s.w.g["commitIndex"])
+    s.append_entries(1, [2, 4])
+    s.drain(4, lambda m: m["mtype"] == "apq" and m["msource"] == 1)
+    s.drain(2, lambda m: m["mtype"] == "apq" and m["msource"] == 1)
+    s.drain(1, lambda m: m["mtype"] == "app")
+    s.do(("EAdvance", 1)); s.do(("EApply", 1)); s.do(("EApply", 1))
+    s.check(s.w.g["commitIndex"][1] == 1, s.w.g["commitIndex"])
+    return s.case("even_split", "4 servers: exactly half of the votes / replicas is not a quorum (no leader, no commit)")
